@@ -1050,7 +1050,7 @@ impl<R: RefCounter, PR: PathRefCounter, H: Header> Memory<R, PR, H> {
         } => {
           if remove_on_drop.load(Ordering::Acquire) {
             let _ = Box::from_raw(*buf);
-            core::ptr::drop_in_place(file);
+            // the file itself is closed (once) when the backend is dropped
             let _ = std::fs::remove_file(path.as_path());
             return;
           }
@@ -1060,14 +1060,13 @@ impl<R: RefCounter, PR: PathRefCounter, H: Header> Memory<R, PR, H> {
         }
         MemoryBackend::Mmap {
           path,
-          file,
           buf,
           remove_on_drop,
           ..
         } => {
           if remove_on_drop.load(Ordering::Acquire) {
             let _ = Box::from_raw(*buf);
-            core::ptr::drop_in_place(file);
+            // the file itself is closed (once) when the backend is dropped
             let _ = std::fs::remove_file(path.as_path());
             return;
           }
